@@ -429,10 +429,79 @@ def _r2_rest_structural(ctx):
              f'{sorted({src(c.args[1]) for c in dflt})}', key='extract-stretch:same-range')
 
 
+def _md_by_interpretation(ctx, m):
+    import itertools
+    from ..consteval import run_function, Raised, Unfoldable, module_scope
+    try:
+        env = module_scope(ctx.ix, SEQUTILS)
+        n = 0
+        for L in range(0, 4):
+            for ref in itertools.product('ACa', repeat=L):
+                for q in itertools.product('AC', repeat=L):
+                    n += 1
+                    got = run_function(m, [''.join(ref), ''.join(q)], env=env, budget=20000)
+                    md, run = [], 0
+                    for r_, q_ in zip(ref, q):
+                        if r_.upper() == q_:
+                            run += 1
+                        else:
+                            if run:
+                                md.append(str(run))
+                            md.append(r_.upper())
+                            run = 0
+                    if run:
+                        md.append(str(run))
+                    if got != ''.join(md):
+                        return (False, n, {'reference': ''.join(ref), 'query': ''.join(q), 'MD': got, 'expected': ''.join(md)})
+    except (Unfoldable, Raised):
+        return None
+    except Exception:
+        return None
+    return (True, n, None)
+
+
+def _basecall_by_interpretation(ctx, f):
+    import itertools
+    from ..consteval import run_function, Raised, Unfoldable, module_scope
+    try:
+        env = module_scope(ctx.ix, SEQUTILS)
+
+        def hook(ev, call, env_):
+            if (dotted(call.func) or '').endswith('base_probabilities_to_likelihood'):
+                return dict(ev.ev(call.args[0], env_))
+            return NotImplemented
+        n = 0
+        for bases in (), ('A',), ('A', 'C'), ('C', 'A'), ('A', 'C', 'N'), ('N', 'C', 'A'):
+            for vals in itertools.product((1, 2, 4), repeat=len(bases)):
+                n += 1
+                lk = dict(zip(bases, vals))
+                got = run_function(f, [dict(lk)], env=env, call_hook=hook, budget=20000)
+                ranked = sorted(lk.items(), key=lambda kv: -kv[1])
+                if not ranked or (len(ranked) >= 2 and ranked[0][1] == ranked[1][1]):
+                    want = ('N', 0)
+                else:
+                    want = (ranked[0][0], ranked[0][1] / sum(lk.values()))
+                if tuple(got) != want:
+                    return (False, n, {'likelihood per base': lk, 'call': tuple(got), 'expected': want})
+    except (Unfoldable, Raised):
+        return None
+    except Exception:
+        return None
+    return (True, n, None)
+
+
 @rule('C15', 'C15-R3', 'undecidable calls yield N: the likelihood caller returns ("N", 0) when there is no observation or the two '
                        'best bases tie, and that test dominates the normal return')
 def r3(ctx):
     f = ctx.fn(SEQUTILS, 'phredscores_to_base_call')
+    sem = _basecall_by_interpretation(ctx, f)
+    if sem is not None:
+        ctx.counters['abstract_cases'] += sem[1]
+        ctx.emit('C15-R3', sem[0], SEQUTILS, f, f'phredscores_to_base_call interpreted on {sem[1]} likelihood tables: ("N", 0) iff no observation or the two most likely bases tie, otherwise the most likely base '
+                 'with its share of the total likelihood' if sem[0] else f'phredscores_to_base_call differs: {sem[2]}', key='tie-returns-N', witness=sem[2], what='phredscores_to_base_call: undecidable call is not N')
+        ctx.exhaustive['C15-R3'] = True
+        _r3_likelihood(ctx)
+        return
     # the ranked list: the local assigned from Counter(...).most_common()
     def is_ranking(v):
         # Counter(..).most_common()  or  sorted(<mapping>.items(), key=<second element>, reverse=True): (base, probability) pairs, best first
@@ -481,6 +550,10 @@ def r3(ctx):
              ('("N", 0) iff no observation or tie of the two most likely bases, otherwise the best ranked call' if not bad else f'differs at {bad[0]}'),
              key='tie-returns-N', witness=bad[0] if bad else None)
     ctx.exhaustive['C15-R3'] = True
+    _r3_likelihood(ctx)
+
+
+def _r3_likelihood(ctx):
     # normalisation uses all bases incl. N; product over observations
     g = ctx.fn(SEQUTILS, 'base_probabilities_to_likelihood')
     al = import_aliases(ctx.ix.module(SEQUTILS))
@@ -971,6 +1044,12 @@ def r5(ctx):
     ok = len(nasg) == 1 and '1 - p' in src(nasg[0].value).replace('1-p', '1 - p') and "base != 'N'" in src(nasg[0].value)
     ctx.emit('C15-R5', ok, SEQUTILS, nasg[0] if nasg else g, 'N receives the complement probability of every real observation', key='likelihood-N', nontrivial=False)
     m = ctx.fn(SEQUTILS, 'create_MD_tag')
+    sem = _md_by_interpretation(ctx, m)
+    if sem is not None:
+        ctx.counters['abstract_cases'] += sem[1]
+        ctx.emit('C15-R5', sem[0], SEQUTILS, m, f'create_MD_tag interpreted on {sem[1]} (reference, query) pairs over A / C / a: match runs are counted, mismatches name the reference base in upper case' if sem[0]
+                 else f'create_MD_tag differs: {sem[2]}', key='md-upper-case', witness=sem[2], what='create_MD_tag: MD tag does not describe the reference (upper case) at the mismatches')
+        return
     loops = [l for l in m.body if isinstance(l, ast.For)]
     ok = False
     detail = 'loop over (reference, query) not found'
